@@ -228,13 +228,17 @@ func observe(src string, ident bool) (*gen.Node, int, string) {
 	if c.Err != nil {
 		return nil, 0, "malformed tree: " + c.Err.Error()
 	}
-	if len(tree) == 0 || tree[0] == nil || tree[0].Kind != gen.Assign || len(tree[0].Args) != 1 || len(tree[0].Rhs) != 1 {
+	if len(tree) == 0 {
+		return nil, 0, ""
+	}
+	last := tree[len(tree)-1] // the literal under test sits in the last statement (earlier ones are context)
+	if last == nil || last.Kind != gen.Assign || len(last.Args) != 1 || len(last.Rhs) != 1 {
 		return nil, len(tree), ""
 	}
 	if ident {
-		return tree[0].Args[0], len(tree), ""
+		return last.Args[0], len(tree), ""
 	}
-	return tree[0].Rhs[0], len(tree), ""
+	return last.Rhs[0], len(tree), ""
 }
 
 func judgeString(t rk.Failer, slot, kind, src string, ex expect, ident bool, nontrivial bool) {
@@ -335,7 +339,21 @@ func isASCII(s string) bool {
 }
 
 // checkBody runs one body through the five quoting forms.
+// contexts: statements that precede the literal under test in the same script (literals of the other kinds: what a
+// literal denotes does not depend on the tokens before it).
+var contexts = []string{"`k q` = 1\n", "z = 'single \\' one'\n", "z = \"double \\\" one\"\n", "z = \"\"\"triple\nbody\"\"\"\n", "z = '''tri \"\" ple'''\n", "# a comment with ` ' \" quotes\n", "a.`b c` = [1, \"x\"]\n"}
+
+var ctxTurn int
+
 func checkBody(t rk.Failer, slot, body string) {
+	ctxTurn++
+	if ctxTurn%4 == 0 {
+		// every fourth body also after a context statement
+		ctx := contexts[(ctxTurn/4)%len(contexts)]
+		judgeString(t, slot, "double-after-context", ctx+"x = \""+body+"\"", classifyQuoted(body, '"'), false, interesting(body, '"'))
+		judgeString(t, slot, "single-after-context", ctx+"x = '"+body+"'", classifyQuoted(body, '\''), false, interesting(body, '\''))
+		judgeString(t, slot, "backquote-after-context", ctx+"`"+body+"` = 1", classifyBackquote(body), true, interesting(body, 0))
+	}
 	judgeString(t, slot, "double", "x = \""+body+"\"", classifyQuoted(body, '"'), false, interesting(body, '"'))
 	judgeString(t, slot, "single", "x = '"+body+"'", classifyQuoted(body, '\''), false, interesting(body, '\''))
 	judgeString(t, slot, "triple-double", "x = \"\"\""+body+"\"\"\"", classifyTriple(body), false, interesting(body, 0))
@@ -446,12 +464,13 @@ func TestValueRoundTrip(t *testing.T) {
 // ------------------------------------------------------------ numbers
 
 type numExpect struct {
-	isInt  bool
-	i      int64
-	f      float64
-	reject bool // must be rejected
-	weak   bool // {rejected, float f}
-	paren  bool // the literal is parenthesised: fold before comparing
+	isInt   bool
+	i       int64
+	f       float64
+	reject  bool // must be rejected
+	weak    bool // {rejected, float f}
+	paren   bool // the literal is parenthesised: fold before comparing
+	weakInt bool // {rejected, int i}
 }
 
 func judgeNumber(t rk.Failer, slot, spelling, sign string, ex numExpect, nontrivial bool) {
@@ -473,7 +492,7 @@ func judgeNumber(t rk.Failer, slot, spelling, sign string, ex numExpect, nontriv
 		return
 	}
 	if node == nil {
-		if ex.weak {
+		if ex.weak || ex.weakInt {
 			evid.Case(src, false, "number/weak-rejected")
 			return
 		}
@@ -721,6 +740,45 @@ func TestNumberAdjacency(t *testing.T) {
 		}
 	}
 	evid.Exhaustive("numeral x operator x right operand x {no blank, blank}", n)
+}
+
+// TestLeadingZeros: a numeral that starts with 0 and goes on with digits follows Go's base rule (the digits are
+// octal; with an 8 or 9 among them the spelling is not an integer and denotes the decimal float); 0 alone, 00 and
+// spellings with a fraction or exponent are decimal.
+func TestLeadingZeros(t *testing.T) {
+	n := 0
+	for _, c := range []struct {
+		s  string
+		ex numExpect
+	}{
+		{"010", numExpect{isInt: true, i: 8}}, {"0755", numExpect{isInt: true, i: 493}}, {"017", numExpect{isInt: true, i: 15}}, {"007", numExpect{isInt: true, i: 7}}, {"00", numExpect{isInt: true, i: 0}}, {"000", numExpect{isInt: true, i: 0}},
+		{"0777777777777777777777", numExpect{isInt: true, i: math.MaxInt64}}, {"01000000000000000000000", numExpect{f: 1e21}},
+		{"08", numExpect{f: 8}}, {"009", numExpect{f: 9}}, {"0189", numExpect{f: 189}}, {"010.0", numExpect{f: 10}}, {"010.5", numExpect{f: 10.5}}, {"01e1", numExpect{f: 10}}, {"00.5", numExpect{f: 0.5}}, {"0e0", numExpect{f: 0}},
+		{"0o17", numExpect{isInt: true, i: 15}}, {"0O17", numExpect{isInt: true, i: 15}}, {"0b101", numExpect{isInt: true, i: 5}}, {"0B11", numExpect{isInt: true, i: 3}}, {"1_000", numExpect{isInt: true, i: 1000}}, {"0x_ff", numExpect{isInt: true, i: 255}},
+	} {
+		for _, sign := range []string{"", "-", "+", "- -"} {
+			ex := c.ex
+			if strings.ContainsAny(c.s, "oObB_") {
+				// forms the reference does not mention: accepted with Go's value or rejected
+				ex.weakInt = true
+			}
+			judgeNumber(t, "leading-zero", c.s, sign, ex, true)
+			n++
+		}
+		// as a slice bound and an index: an integer is admitted there, a float is not
+		if c.ex.isInt && !strings.ContainsAny(c.s, "oObB_") {
+			src := "x = a[" + c.s + ":]"
+			if _, _, bad := observe(src, false); bad != "" {
+				rk.Fail(t, "leading-zero", replay{Src: src, Kind: "number"}, "%s", bad)
+			}
+			node, _, _ := observe(src, false)
+			if node == nil || node.Kind != gen.Slice || node.Lo == nil || node.Lo.Kind != gen.Int || node.Lo.I != c.ex.i {
+				rk.Fail(t, "leading-zero", replay{Src: src, Kind: "number"}, "slice bound %s did not parse to the integer %d: %v", c.s, c.ex.i, node)
+			}
+			n++
+		}
+	}
+	evid.Exhaustive("leading-zero numerals x signs", n)
 }
 
 func TestMalformedNumbers(t *testing.T) {
